@@ -71,22 +71,37 @@ func New(env *hx.Env) *R {
 	r.reg("Mreq", authtypes.NewModuleAddress(types.RequestAccName))
 	r.reg("Mfc", authtypes.NewModuleAddress(types.FeeCollectorName))
 	r.reg("Mblk", authtypes.NewModuleAddress(authtypes.FeeCollectorName))
-	// recording callbacks, registered like oracle/random do
+	// one registration per application instance; the closures always talk to the latest runner built on it
+	if _, seen := current[env]; !seen {
+		install(env)
+	}
+	current[env] = r
+	return r
+}
+
+// current maps an application instance to the runner its callbacks and rate table belong to
+var current = map[*hx.Env]*R{}
+
+// install registers, once per application instance, the recording callback module (the way the
+// oracle and random keepers register theirs) and the exchange-rate table that stands in for the
+// oracle module's module service.
+func install(env *hx.Env) {
 	if err := env.Service.RegisterResponseCallback(CbMod, func(ctx sdk.Context, id tmbytes.HexBytes, outs []string, err error) {
 		e := 0
 		if err != nil {
 			e = 1
 		}
+		r := current[env]
 		r.cb = append(r.cb, fmt.Sprintf("resp/%s/%d/%d", hx.Hex(id), len(outs), e))
 	}); err != nil {
 		hx.Fail("register response callback: %v", err)
 	}
 	if err := env.Service.RegisterStateCallback(CbMod, func(ctx sdk.Context, id tmbytes.HexBytes, cause string) {
+		r := current[env]
 		r.cb = append(r.cb, fmt.Sprintf("state/%s/%s", hx.Hex(id), strings.ReplaceAll(cause, " ", "_")))
 	}); err != nil {
 		hx.Fail("register state callback: %v", err)
 	}
-	// exchange-rate table instead of the oracle module's host-clock dependent module service
 	env.Service.SetModuleService(types.RegisterModuleName, &types.ModuleService{
 		ServiceName: types.OraclePriceServiceName,
 		Provider:    types.OraclePriceServiceProvider,
@@ -101,15 +116,17 @@ func New(env *hx.Env) *R {
 			pair := rest[:j]
 			k := strings.LastIndex(pair, "-")
 			quote := pair[:k]
-			rate, ok := r.rates[quote]
+			rate, ok := current[env].rates[quote]
 			if !ok {
 				return `{"code":400,"message":"feed not found"}`, ""
 			}
 			return `{"code":200,"message":""}`, fmt.Sprintf(`{"header":{},"body":{"rate":"%s"}}`, rate)
 		},
 	})
-	return r
 }
+
+// State is the canonical projection of the module state the observation lines carry (hx.Stater).
+func (r *R) State(ctx sdk.Context) string { return r.state(ctx) }
 
 func (r *R) reg(name string, a sdk.AccAddress) {
 	r.names[a.String()] = name
